@@ -114,4 +114,67 @@ def trace (m : Mode) (w : W) : List Nat → List CStatus
   | [] => []
   | i :: is => (wstep m w i).g.cur.status :: trace m (wstep m w i) is
 
+/-! ### simultaneous responses to ONE stored challenge
+
+  api.GetChallenge: `db.GetChallenge` (load) · return unless pending · validation (no database call)
+  · `DB.UpdateChallenge` = `old := getDBChallenge(id)` · `CmpAndSwap(old -> nu)` with
+  nu = old + {Status, Error, ValidatedAt of the caller's object}. The caller's object is the record
+  it loaded with the validator's verdict applied: success -> valid, error cleared;
+  storeError(markInvalid = false) -> status as loaded (pending), error recorded;
+  storeError(markInvalid = true) -> invalid, error recorded. -/
+
+inductive ChSt where
+  | pending | valid | invalid
+  deriving Repr, DecidableEq
+
+/-- the stored challenge record as far as UpdateChallenge rewrites it -/
+structure ChRec where
+  status : ChSt := .pending
+  err : Bool := false
+  deriving Repr, DecidableEq
+
+inductive Verdict where
+  | ok | retry | reject
+  deriving Repr, DecidableEq
+
+structure ChTh where
+  verdict : Verdict
+  pc : Nat := 0
+  loaded : ChRec := {}
+  old : ChRec := {}
+  deriving Repr, DecidableEq
+
+/-- what the request wants stored -/
+def ChTh.target (t : ChTh) : ChRec :=
+  match t.verdict with
+  | .ok => { status := .valid, err := false }
+  | .retry => { status := t.loaded.status, err := true }
+  | .reject => { status := .invalid, err := true }
+
+/-- one database call of one response -/
+def chStep (cur : ChRec) (t : ChTh) : ChRec × ChTh :=
+  match t.pc with
+  | 0 => (cur, { t with loaded := cur, pc := if cur.status = .pending then 1 else 9 })   -- db.GetChallenge
+  | 1 => (cur, { t with old := cur, pc := 2 })                                            -- getDBChallenge
+  | 2 => (if cur = t.old then t.target else cur, { t with pc := 9 })                      -- CmpAndSwap
+  | _ => (cur, { t with pc := 9 })
+
+structure ChW where
+  cur : ChRec := {}
+  ths : List ChTh
+  deriving Repr, DecidableEq
+
+def chWstep (w : ChW) (i : Nat) : ChW :=
+  match w.ths[i]? with
+  | none => w
+  | some t =>
+    match chStep w.cur t with
+    | (c', t') => { cur := c', ths := w.ths.set i t' }
+
+def chExec (w : ChW) (sched : List Nat) : ChW := sched.foldl chWstep w
+
+def chTrace (w : ChW) : List Nat → List ChSt
+  | [] => []
+  | i :: is => (chWstep w i).cur.status :: chTrace (chWstep w i) is
+
 end Verif.AcmeConc
